@@ -1,7 +1,8 @@
 """C07 -- close() then join() drains all work and leaves no processes behind."""
-from checks import feedcommon, shutdown
+from checks import feedcommon, poolcommon, shutdown
 
 
 def main(ctx):
     feedcommon.run(ctx, 'C07')
+    poolcommon.run(ctx, 'C07')     # results of every generation of workers are credited (no guard wait)
     shutdown.run(ctx, 'C07')
